@@ -15,9 +15,14 @@ NOT_APPLICABLE = {}
 import importlib
 import os
 
+# checks that are finished and registered in MANIFEST.json (others may exist as work in progress)
+READY = ["C02", "C12"]
+
 CHECKS = {}
 for _i in range(1, 21):
     _id = "C%02d" % _i
+    if _id not in READY:
+        continue
     if os.path.exists(os.path.join(os.path.dirname(os.path.abspath(__file__)), _id.lower() + ".py")):
         _m = importlib.import_module(_id.lower())
         if getattr(_m, "REGISTRY", None):
